@@ -3,6 +3,7 @@
    every function of n variables exactly once, in increasing order, then stops.
    Statements only; proofs are in Proofs/Order.v (which also defines [big], [iter_after], [iter_item]). *)
 From Coq Require Import List NArith Bool.
+From V Require Proofs.ExprsTie3.  (* whole-word regimes, fill_symmetric, text widths: regenerated from the Rust source, equal the model's *)
 From V Require Proofs.ExprsTie.   (* the kernels' word-level expressions, regenerated from the Rust source, equal the model's *)
 From V Require Import Base.Res Model.Kernels Model.Api Spec.Bfun Proofs.Order.
 From V Require Import Proofs.ApiTransforms Proofs.HexOrder.
